@@ -46,7 +46,7 @@ Arch3Calls(n) ==
              \cup {[m |-> "have_modules_with_names_matching", regex |-> <<"regex">>],
                    [m |-> "containing_modules", names |-> <<>>, list |-> TRUE]}
 
-Defined == {"L1", "L2"}
+Defined == {"L1", "L2", "L3"}
 LRuleCalls ==
     {[m |-> m] : m \in {"based_on", "layers_that", "should", "should_not", "access_layers_that",
                         "access_layers_except_layers_that", "access_any_layer"}}
@@ -55,14 +55,30 @@ LRuleCalls ==
           [m |-> "are_named", layers |-> <<"L1", "L2">>, list |-> TRUE, defined |-> Defined],
           [m |-> "are_named", layers |-> <<"LX">>, list |-> FALSE, defined |-> Defined]}
 
-DiagCalls == {[m |-> "from_file", file |-> "good"], [m |-> "from_file", file |-> "notags"],
+\* "lchain": well-shaped LayerRule chains, one choice per position - based_on, layers_that, subject, verb, access kind,
+\* object layer(s) - with every verb and access kind and with object LISTS of two layers in both orders (the complete
+\* chains that the free exploration above is too shallow to reach)
+LChainCalls(n) ==
+    CASE n = 0 -> {[m |-> "based_on"]}
+      [] n = 1 -> {[m |-> "layers_that"]}
+      [] n = 2 -> {[m |-> "are_named", layers |-> <<"L1">>, list |-> l, defined |-> Defined] : l \in BOOLEAN}
+      [] n = 3 -> {[m |-> v] : v \in LRuleVerbs}
+      [] n = 4 -> {[m |-> a] : a \in LRuleAccess}
+      [] n = 5 -> {[m |-> "are_named", layers |-> <<"L2">>, list |-> FALSE, defined |-> Defined],
+                   [m |-> "are_named", layers |-> <<"L3">>, list |-> TRUE, defined |-> Defined],
+                   [m |-> "are_named", layers |-> <<"L2", "L3">>, list |-> TRUE, defined |-> Defined],
+                   [m |-> "are_named", layers |-> <<"L3", "L2">>, list |-> TRUE, defined |-> Defined],
+                   [m |-> "are_named", layers |-> <<"L2", "LX">>, list |-> TRUE, defined |-> Defined]}
+      [] OTHER -> {}
+
+DiagCalls == {[m |-> "from_file", file |-> f] : f \in {"good", "notags", "startonly", "endonly", "reversed"}} \cup {
               [m |-> "with_base_module"], [m |-> "base_module_included_in_module_names"]}
 
 Calls(s) == CASE Which = "rule" -> RuleCalls(s) [] Which = "arch" -> ArchCalls [] Which = "arch3" -> Arch3Calls(Len(hist))
-              [] Which = "lrule" -> LRuleCalls [] Which = "diag" -> DiagCalls
+              [] Which = "lrule" -> LRuleCalls [] Which = "lchain" -> LChainCalls(Len(hist)) [] Which = "diag" -> DiagCalls
 StepOf(s, c) == CASE Which = "rule" -> RuleStep(s, c) [] Which \in {"arch", "arch3"} -> ArchStep(s, c)
-                  [] Which = "lrule" -> LRuleStep(s, c) [] Which = "diag" -> DiagStep(s, c)
-InitSt == CASE Which = "rule" -> RInit [] Which \in {"arch", "arch3"} -> AInit [] Which = "lrule" -> LInit [] Which = "diag" -> DInit
+                  [] Which \in {"lrule", "lchain"} -> LRuleStep(s, c) [] Which = "diag" -> DiagStep(s, c)
+InitSt == CASE Which = "rule" -> RInit [] Which \in {"arch", "arch3"} -> AInit [] Which \in {"lrule", "lchain"} -> LInit [] Which = "diag" -> DInit
 
 Init == st = InitSt /\ hist = <<>>
 Call(c) == /\ Len(hist) < MaxLen
@@ -103,7 +119,7 @@ ArchIsHistory ==
       IN /\ Len(st.layers) = Len(acc)
          /\ \A i \in DOMAIN acc : st.layers[i].items = (IF acc[i].c.m = "containing_modules" THEN acc[i].c.names ELSE <<acc[i].c.regex>>)
 \* LayerRule: at most one subject layer, ever (C16)
-LRuleOneSubject == Which = "lrule" => (Cardinality(st.rule.subs) <= 1)
+LRuleOneSubject == Which \in {"lrule", "lchain"} => (Cardinality(st.rule.subs) <= 1)
 \* rejected calls leave the state unchanged (all builders)
 RejectedUnchanged == [][Last(hist').out = "error" => st' = st]_vars
 
